@@ -80,6 +80,7 @@ def audit(modules, recheck=False):
     for p in srcs:
         h.update(open(p, 'rb').read())
     key = h.hexdigest()[:16] + '-' + '-'.join(sorted(modules))
+    os.makedirs(build.WORK, exist_ok=True)
     cache = os.path.join(build.WORK, 'audit-' + hashlib.sha256(key.encode()).hexdigest()[:16] + '.json')
     if os.path.exists(cache):
         cached = json.load(open(cache))
